@@ -12,7 +12,8 @@ LEVEL = 'other'
 CATS = ['sources', 'outputs', 'attachments', 'metadata', 'id', 'details']
 FLAG = {'sources': 's', 'outputs': 'o', 'attachments': 'a', 'metadata': 'm', 'id': 'i', 'details': 'd'}
 KNOWN = {'mapping-atomic-id': 'C14-mapping-id', 'nonempty:outputs-misalign': 'C14-ignored-outputs-misalign',
-         'ignore-mapping-reset-by-config-boolean': 'C14-config-boolean-resets-ignore-mapping'}
+         'ignore-mapping-reset-by-config-boolean': 'C14-config-boolean-resets-ignore-mapping',
+         'nonempty:ids-misalign': 'C14-ignored-ids-misalign'}
 
 
 def category(starpath):
@@ -258,6 +259,21 @@ def check_pair(a, b, ignored, form):
                         cb['outputs'] = copy.deepcopy(ca['outputs'])
                 if not nbd.diff_notebooks(a, b_eq):
                     kind = 'nonempty:outputs-misalign'
+                elif 'id' in ignored:
+                    # ... or, with ids ignored too, the (ignored) ids: cells are aligned by id first, whatever the options say
+                    for ca, cb in zip(a['cells'], b_eq['cells']):
+                        if 'id' in ca and 'id' in cb:
+                            cb['id'] = ca['id']
+                    if not nbd.diff_notebooks(a, b_eq):
+                        kind = 'nonempty:ids-misalign'
+            elif 'id' in ignored and len(a['cells']) == len(b['cells']) and len(pd) == 1 and cells_diff and \
+                    any(e['op'] in ('addrange', 'removerange') for e in cells_diff[0]['diff']):
+                b_eq = copy.deepcopy(b)
+                for ca, cb in zip(a['cells'], b_eq['cells']):
+                    if 'id' in ca and 'id' in cb:
+                        cb['id'] = ca['id']
+                if not nbd.diff_notebooks(a, b_eq):
+                    kind = 'nonempty:ids-misalign'
             out.append((kind, 'notebooks differ only in ignored categories %s but the diff is not empty: %r' % (sorted(ignored), pd[:1])))
     finally:
         nbd.reset_notebook_differ()
